@@ -87,6 +87,35 @@ void waitn_cv_ctr (void) {
 	}
 	nsync_mu_unlock (&mu);
 }
+/* wait on the cv alone through nsync_wait_n, holding mu; solver-chosen deadline */
+void waitn_cv (void) {
+	struct nsync_waitable_s w0;
+	struct nsync_waitable_s *ws[1];
+	long ds = (long) (vf_nondet () & 0xff);
+	int r = 0;
+	w0.v = &cv; w0.funcs = &nsync_cv_waitable_funcs;
+	ws[0] = &w0;
+	nsync_mu_lock (&mu);
+	if (!flag) {
+		r = nsync_wait_n (&mu, (void (*) (void *)) &nsync_mu_lock, (void (*) (void *)) &nsync_mu_unlock, nsync_time_s_ns (ds, 0), 1, ws);
+		vf_assert (r == 0 || r == 1);
+		if (r == 0) { vf_assert (cv_signalled); }
+		if (r == 1) { vf_assert (vf_now_ge (ds, 0)); }
+	}
+	nsync_mu_unlock (&mu);
+}
+void final_cv_again (void) {
+	nsync_mu_lock (&mu);
+	nsync_cv_broadcast (&cv);
+	nsync_mu_unlock (&mu);
+}
+void signaller_after (void) {
+	nsync_mu_lock (&mu);
+	flag = 1;
+	cv_signalled = 1;
+	nsync_mu_unlock (&mu);
+	nsync_cv_signal (&cv);
+}
 /* wait on the counter alone through nsync_wait_n, no mutex, solver-chosen deadline */
 void waitn_ctr (void) {
 	struct nsync_waitable_s w1;
